@@ -64,6 +64,22 @@ type famStat struct {
 	distinct     map[[20]byte]struct{}
 }
 
+// Resource envelope (C10: "does not run or allocate beyond a small multiple of what the input size
+// warrants"): a case whose allocation exceeds A*inputBytes + B bytes, or whose run time exceeds MaxMs,
+// gets its output prefixed with RESOURCE:… and so differs from both model and spec.  The constants are
+// deliberately generous (they must never fire on the unchanged tree); SetEnvelope overrides them per family.
+type envelope struct {
+	A     float64
+	B     float64
+	MaxMs float64
+}
+
+var defaultEnvelope = envelope{A: 512, B: 64 << 20, MaxMs: 10000}
+var envelopes = map[string]envelope{}
+
+// SetEnvelope sets the allocation/time envelope of one family (a <= 0 disables the allocation bound).
+func SetEnvelope(fam string, a, b, maxMs float64) { envelopes[fam] = envelope{a, b, maxMs} }
+
 var curCase atomic.Value // string: description of the case being executed (for the watchdog)
 
 func panicKind(r interface{}) string {
@@ -199,9 +215,19 @@ func Main() {
 		for _, a := range args {
 			inBytes += len(a)
 		}
-		apb := float64(m1.TotalAlloc-m0.TotalAlloc) / float64(inBytes+4096)
+		alloc := float64(m1.TotalAlloc - m0.TotalAlloc)
+		apb := alloc / float64(inBytes+4096)
 		if apb > st.MaxAllocPerB {
 			st.MaxAllocPerB = apb
+		}
+		env, ok := envelopes[fam]
+		if !ok {
+			env = defaultEnvelope
+		}
+		if env.A > 0 && alloc > env.A*float64(inBytes)+env.B {
+			impl = fmt.Sprintf("RESOURCE:alloc=%.0f-for-%d-input-bytes:", alloc, inBytes) + impl
+		} else if ms := float64(el.Microseconds()) / 1000; env.MaxMs > 0 && ms > env.MaxMs {
+			impl = fmt.Sprintf("RESOURCE:ms=%.0f-for-%d-input-bytes:", ms, inBytes) + impl
 		}
 
 		st.Cases++
